@@ -213,6 +213,63 @@ def rref_oracle(rep, text, k, seed):
     return a
 
 
+def upsert_case(rng):
+    """Templates with `update_key` (upsert load steps) carrying hidden fields — scalars, formulas, references —
+    next to plain templates of the same table; hidden tables with update keys."""
+    v = rng.choice([2, 3])
+    lines = [f"- snowfakery_version: {v}", "- object: Company", "  nickname: co", "  fields:", "    name: Acme", "    __k: 7"]
+    keys = ["Email", "Name"]
+    for i in range(rng.randint(1, 3)):
+        table = rng.choice(["Contact", "Contact", "__H"])
+        lines += [f"- object: {table}"]
+        if rng.random() < 0.8:
+            lines += [f"  update_key: {rng.choice(keys)}"]
+        lines += ["  fields:", f"    Email: p{i}@example.com", f"    Name: n{i}"]
+        if rng.random() < 0.8:
+            lines += [f"    __first: {rng.choice(['b', '12', 'true'])}"]
+        if rng.random() < 0.6:
+            lines += ["    __employer:", "      reference: co"]
+        if rng.random() < 0.5:
+            lines += ["    Title: ${{__first}}" if any("__first" in x for x in lines[-4:]) else "    Title: t"]
+        if rng.random() < 0.4:
+            lines += ["    boss:", "      reference: co"]
+    return "\n".join(lines) + "\n"
+
+
+def mapping_oracle(rep, text, k):
+    """Run with a CCI mapping file and scan steps, sf_object/table, field keys and lookup keys."""
+    from snowfakery import generate_data
+    from snowfakery.api import SnowfakeryApplication, COUNT_REPS
+    from snowfakery.data_generator_runtime import StoppingCriteria
+
+    case = {"kind": "upsert", "recipe": text, "parts": [k]}
+    d = tempfile.mkdtemp(prefix="verif_c09m_")
+    try:
+        rpath, mapp = os.path.join(d, "r.recipe.yml"), os.path.join(d, "map.yml")
+        with open(rpath, "w") as f:
+            f.write(text)
+        app = SnowfakeryApplication(StoppingCriteria(COUNT_REPS, k))
+        app.echo = lambda *a, **kw: None
+        try:
+            generate_data(rpath, parent_application=app, output_format="json", output_files=[io.StringIO()],
+                          generate_cci_mapping_file=mapp)
+        except Exception as e:  # noqa
+            rep.count("upsert-run-failed:" + common.outcome_of_exception(e).split(":")[0])
+            return
+        rep.count("upsert-run-ok")
+        m = yaml.safe_load(open(mapp)) or {}
+        names = []
+        for step, body in m.items():
+            names += IDENT.findall(step) + [body.get("sf_object"), body.get("table"), body.get("update_key")]
+            names += list((body.get("fields") or {}).keys()) + list((body.get("fields") or {}).values())
+            for lk, lv in (body.get("lookups") or {}).items():
+                names += [lk, lv.get("key_field") if isinstance(lv, dict) else None]
+            names += IDENT.findall(" ".join(map(str, body.get("filters") or [])))
+        scan(rep, case, "mapping", [n for n in names if isinstance(n, str)])
+    finally:
+        shutil.rmtree(d, ignore_errors=True)
+
+
 IDENT = re.compile(r"__[A-Za-z]\w*")
 
 
@@ -351,6 +408,12 @@ def run(ctx, rep, findings):
     n = ctx.scale(350, 5000)
     nf = ctx.scale(45, 600)
     pending = []
+    for i in range(ctx.scale(40, 500)):
+        text = upsert_case(ctx.rng)
+        k = ctx.rng.choice([1, 2])
+        mapping_oracle(rep, text, k)
+        rep.case({"recipe": text, "parts": [k]}, nontrivial=True)
+        rep.count("family:upsert-with-hidden-fields (mapping)")
     for i in range(ctx.scale(60, 800)):
         text, seed = rref_case(ctx.rng)
         k = ctx.rng.choice([1, 2, 2])
@@ -389,6 +452,9 @@ def flush(rep, pending):
 
 def replay(case, rep):
     k = case["parts"][0]
+    if case.get("kind") == "upsert":
+        mapping_oracle(rep, case["recipe"], k)
+        return
     if case.get("kind") == "rref":
         rref_oracle(rep, case["recipe"], k, case["seed"])
         return
